@@ -20,7 +20,7 @@ CLAIMED = {
          "composites enumerated (bounded); pyvc engine trusted (canaries, CPython cross-check, seeded faults)"),
  'C20': ("Containment, layer, index, bounds, translation, overlap and rejection clauses are postconditions on the real scatterer classes, proved for all "
          "real-valued geometries by z3 (NRA); member/layer counts are enumerated within the property's own ranges and reported as bounded.",
-         "voxelisation convergence is out of reach; collections enumerated up to the stated member counts (bounded, not counted as proved); floats are mathematical reals"),
+         "voxelisation convergence is out of reach; collections enumerated up to the stated member counts (bounded, not counted as proved); that every overlapping construction warns under the interpreter's default (once-per-location) filters is decided only by sampled native runs in a fresh interpreter (bounded); floats are mathematical reals"),
 }
 NA = {
  'C10': "every clause is about values returned by (or a STOP inside) Mishchenko's Fortran T-matrix code, which is not built and cannot be built in this "
